@@ -11,6 +11,7 @@ import (
 	"reflect"
 	"sort"
 	"strconv"
+	"strings"
 	"verifharness/runner"
 
 	"github.com/TimothyStiles/poly/io/rebase"
@@ -93,6 +94,9 @@ func c16Report(text []byte) (out []string) {
 	out = append(out, readFlag)
 	// Export, then parse the JSON back into the same type
 	js := rebase.Export(m)
+	// hold the output across an Export of a different map: the bytes returned for m must stay m's
+	_ = rebase.Export(map[string]rebase.Enzyme{"held-output-check": {Name: "held-output-check", Isoschizomers: []string{"other", "map"},
+		References: strings.Repeat("another export ", len(js)/8+2)}})
 	back := map[string]rebase.Enzyme{}
 	jsonFlag := "json-diff"
 	if err := json.Unmarshal(js, &back); err == nil && reflect.DeepEqual(m, back) {
@@ -109,7 +113,7 @@ func c16Report(text []byte) (out []string) {
 
 func init() {
 	runner.Register("rebase_parse", func(a []string) ([]string, error) {
-		return c16Report([]byte(a[0])), nil
+		return safeFields(c16Report([]byte(a[0]))), nil
 	})
 	// the sample distributed with the package; the reply starts with the file's text
 	runner.Register("rebase_file", func(a []string) ([]string, error) {
@@ -121,7 +125,7 @@ func init() {
 		if err != nil {
 			return nil, err
 		}
-		return append([]string{string(text)}, c16Report(text)...), nil
+		return safeFields(append([]string{string(text)}, c16Report(text)...)), nil
 	})
 	// Read of a path that does not exist must return an error, not panic
 	runner.Register("rebase_read_missing", func(a []string) ([]string, error) {
